@@ -53,4 +53,18 @@ theorem white_leaves : sameEntries whiteTrie.leaves whiteTbl = true := by decide
 theorem black_leaves : sameEntries blackTrie.leaves blackTbl = true := by decide +kernel
 theorem unc_leaves : sameEntries uncTrie.leaves uncTbl = true := by decide +kernel
 
+/-- Two run-length tables list the same (length, code) pairs. -/
+def sameRuns (a b : List (Nat × List Bool)) : Bool :=
+  a.all (fun e => b.contains e) && b.all (fun e => a.contains e)
+
+/-- The T.6 mode codes of the specification, as table entries. -/
+def modeSpec : List (Mode × List Bool) :=
+  [(.p, T6.codeP), (.h, T6.codeH), (.e, T6.codeEOFB), (.v 0, T6.codeV 0), (.v 1, T6.codeV 1),
+   (.v (-1), T6.codeV (-1)), (.v 2, T6.codeV 2), (.v (-2), T6.codeV (-2)), (.v 3, T6.codeV 3),
+   (.v (-3), T6.codeV (-3))]
+
+theorem white_is_T4 : sameRuns CcittTables.WHITE T6.white = true := by decide +kernel
+theorem black_is_T4 : sameRuns CcittTables.BLACK T6.black = true := by decide +kernel
+theorem mode_is_T6 : modeSpec.all (fun e => CcittTables.MODE.contains e) = true := by decide +kernel
+
 end PdfVerif.Ccitt
